@@ -28,7 +28,7 @@ import time
 import urllib.parse
 
 
-from ..engine import Part, Fail, Inconclusive, main, canon, TARGET
+from ..engine import Part, Fail, Inconclusive, main, canon, TARGET, h as _h
 from ..oracles import c18_json as J
 from ..oracles import c18_models as CM
 from ..oracles import workspace_ref as WR
@@ -1144,6 +1144,73 @@ def judge_faults(ctx, case, _resp):
 
 # ------------------------------------------------------------------------------------------------
 
+# ---------------------------------------------------------------------------------------------------------------------
+# concurrent clients: evaluations overlapping definitions requests that do not change what is deployed
+# ---------------------------------------------------------------------------------------------------------------------
+
+def gen_concurrent(src):
+    return {"readers": src.int(2, 6), "evals": src.int(30, 120), "deploys": src.int(5, 40), "tck": src.bool(0.5)}
+
+
+def judge_concurrent(ctx, case, _resp):
+    """models A and D stay stored and deployed the whole time; one client keeps posting /definitions/deploy (which rebuilds the
+    same evaluators under the write lock) while several clients evaluate: whatever the interleaving, every evaluation is
+    answered with the value some sequential order of the requests gives - and every such order gives "A" / "D" """
+    import threading
+    srv = server(ctx)
+    srv.state = None
+    for op in (["clear"], ["add", "A"], ["add", "D"], ["deploy"]):
+        o = send_op(srv, op)
+        if "status" not in o or o["status"] != 200:
+            raise Inconclusive("C18 concurrent: preparing the workspace failed at %r: %r" % (op, o))
+    expect = {"a": "A", "c": "D"}
+    wrong, lock = [], threading.Lock()
+
+    def reader(k):
+        h = Http(srv.port)
+        try:
+            for i in range(case["evals"]):
+                name = "a" if (i + k) % 2 == 0 else "c"
+                if case["tck"] and i % 3 == 0:
+                    rec = h.request("POST", "/tck/evaluate", body=jbody({"model": name, "invocable": CM.INVOCABLE, "input": []}), headers=JSON_CT)
+                    want = None
+                else:
+                    rec = h.request("POST", "/evaluate/%s/%s" % (name, CM.INVOCABLE), body=b"{}", headers=JSON_CT)
+                    want = expect[name]
+                body = rec.get("body", b"").decode("utf-8", "replace") if "body" in rec else repr(rec)
+                ok = "status" in rec and rec["status"] == 200 and '"errors"' not in body and (want is None or ('"data":"%s"' % want) in body.replace(" ", ""))
+                if not ok:
+                    with lock:
+                        wrong.append((name, body[:300]))
+                    return
+        finally:
+            h.close()
+
+    threads = [threading.Thread(target=reader, args=(k,)) for k in range(case["readers"])]
+    for t in threads:
+        t.start()
+    w = Http(srv.port)
+    deploy_bad = None
+    for _ in range(case["deploys"]):
+        rec = w.request("POST", "/definitions/deploy", body=None, headers=JSON_CT)
+        if "status" not in rec or rec["status"] != 200:
+            deploy_bad = rec
+            break
+    w.close()
+    for t in threads:
+        t.join(timeout=120)
+    ctx.note(key=_h(case), nontrivial=True, labels=["concurrent", "readers:%d" % case["readers"]],
+             sample={"readers": case["readers"], "evaluations per reader": case["evals"], "deploys": case["deploys"]})
+    if any(t.is_alive() for t in threads):
+        raise Inconclusive("C18 concurrent: a reader did not finish within 120 s")
+    if deploy_bad is not None:
+        return Fail("C18/concurrent-deploy-failed", "a /definitions/deploy issued while evaluations were running was answered %r" % (deploy_bad,))
+    if wrong:
+        return Fail("C18/concurrent-evaluation-wrong-answer", "while another client kept re-deploying the SAME definitions, evaluating %s/%s was answered %s "
+                    "(no sequential order of the requests gives that answer)" % (wrong[0][0], CM.INVOCABLE, wrong[0][1]))
+    return None
+
+
 def setup(ctx):
     ctx.rule = ("cases: (a) echo invocables of a deployed model called through /evaluate with generated strings (quotes, backslashes, control, "
                 "non-ASCII, astral characters, JSON fragments), numbers, booleans, nulls, nested lists and contexts (keys with spaces, quotes); "
@@ -1164,6 +1231,7 @@ def setup(ctx):
     ctx.p_tck = ctx.register(Part("tck", gen_tck, lambda case: [], judge_tck))
     ctx.p_faults = ctx.register(Part("faults", None, lambda case: [], judge_faults))
     ctx.p_history = ctx.register(Part("history", gen_ops, lambda case: [], judge_history))
+    ctx.p_conc = ctx.register(Part("concurrent", gen_concurrent, lambda case: [], judge_concurrent))
 
 
 def run(ctx):
@@ -1175,6 +1243,7 @@ def run(ctx):
         ctx.forall(ctx.p_echo, ctx.scale(8000, 900000), batch=200)
         ctx.forall(ctx.p_tck, ctx.scale(5000, 450000), batch=1)
         ctx.forall(ctx.p_history, ctx.scale(4000, 300000), batch=1)
+        ctx.forall(ctx.p_conc, ctx.scale(40, 2000), batch=1)
         s = getattr(ctx, "_c18_server", None)
         if s is not None and s.http is not None:
             ctx.extra["http_requests"] = s.http.requests
